@@ -1551,6 +1551,22 @@ def history_case(draw):
         pool.append((["CommonSubexpression", s,
                       draw(st.sampled_from(PREFIXES)), SCOPE], v))
     ops, n_mappers, mapped_on = [], 1, set()
+    comm = [(w, v) for w, v in pool if w[1][0] in ("Sum", "Product") and len(w[1][1]) >= 2
+            and w[1][1][0] != w[1][1][-1]]
+    if comm and draw(st.integers(0, 2)) == 0:
+        # two different wrappers whose C text is the same (x + y and y + x are sorted into
+        # one spelling), a copy of the mapper, and a fresh wrapper on the copy: every name
+        # handed out before the copy stays taken
+        w, v = draw(st.sampled_from(comm))
+        twin = ["CommonSubexpression", [w[1][0], list(reversed(w[1][1]))],
+                draw(st.sampled_from((w[2], w[2], None, "u"))), SCOPE]
+        fresh = ["CommonSubexpression", ["Sum", [w, one]],
+                 draw(st.sampled_from((w[2], None, "u"))), SCOPE]
+        ops += [["map", 0, w], ["map", 0, twin],
+                ["copy", 0] if draw(st.booleans()) else ["copy_mapped", 0, [["ext", ["Var", "x"]]]],
+                ["map", 1, fresh], ["map", 1, draw(st.sampled_from((w, twin)))]]
+        n_mappers = 2
+        mapped_on |= {0, 1}
     for _ in range(draw(st.integers(3, 8))):
         c = draw(st.integers(0, 9))
         m = draw(st.integers(0, n_mappers - 1))
